@@ -187,6 +187,45 @@ Definition c02_ts_ok (cf : cfg) (seq : Z) (next : outcome) (aos : list (option o
   then existsb (fun lo => lo <=? o_ts next) h && existsb (fun hi => o_ts next <=? hi) h
   else true.
 
+(* the accepted observations themselves, tagged (same acceptance rule as above) *)
+Definition accepted_obs_tagged (cf : cfg) (aos : list (option observation * bool)) : list (observation * bool) :=
+  match accept_observations (c_has_pred cf) (map fst aos) with
+  | Ok (_, acc) =>
+      let fix go (rr : bool) (l : list (option observation * bool)) : list (observation * bool) :=
+        match l with
+        | [] => []
+        | (None, _) :: r => go rr r
+        | (Some ob, hn) :: r =>
+            match ob_att ob, rr with
+            | NoAttest, _ => (ob, hn) :: go rr r
+            | _, true => (ob, hn) :: go rr r
+            | BadAttest, false => go rr r
+            | GoodAttest _, false => (ob, hn) :: go true r
+            end
+        end in go false aos
+  | _ => []
+  end.
+(* C02 on the outcome the implementation committed: a Decimal held for a (stream, median) pair lies between two Decimals
+   reported by correct observers of this round, whenever all the correct observers' present values for the stream are
+   Decimals and outnumber the faulty observers' present values (C02_outcome_median_in_honest_range on the real outcome) *)
+Definition c02_vals_ok (cf : cfg) (seq : Z) (next : outcome) (aos : list (option observation * bool)) : bool :=
+  if seq <=? 1 then true else
+  let tl := accepted_obs_tagged cf aos in
+  forallb (fun e : (Z * Z) * sval =>
+    let '((sid, agg), v) := e in
+    match v with
+    | SDec d =>
+        if agg =? 1 then
+          let hv := flat_map (fun p : observation * bool => if snd p then match ob_values (fst p) !! sid with Some x => [x] | None => [] end else []) tl in
+          let nf := length (filter (fun p : observation * bool => negb (snd p) && match ob_values (fst p) !! sid with Some _ => true | None => false end) tl) in
+          let hd := flat_map (fun x => match x with SDec y => [y] | _ => [] end) hv in
+          if (length hd =? length hv)%nat && (nf <? length hv)%nat
+          then existsb (fun lo => dleb lo d) hd && existsb (fun hi => dleb d hi) hd
+          else true
+        else true
+    | _ => true
+    end) (map_to_list (o_aggs next)).
+
 (* ---- history-level state carried along the rounds (per instance) ---- *)
 Record inst_state := {
   is_cur : option outcome;                 (* the implementation's last committed outcome *)
@@ -346,7 +385,7 @@ Definition eval_round (h : Z -> chandef -> list Z) (cfgs : list cfg) (a : acc) (
       {| a_states := set_nth (a_states a) i st';
          a_pred_last := pred_last1;
          a_mismatch := a_mismatch a || negb agree || negb rep_agree || negb bytes_agree;
-         a_c02 := a_c02 a || negb (c02_ts_ok cf seq next (rd_aos rd));
+         a_c02 := a_c02 a || negb (c02_ts_ok cf seq next (rd_aos rd)) || negb (c02_vals_ok cf seq next (rd_aos rd));
          a_c03 := a_c03 a || (if hand_built then false else negb c03);
          a_c04 := a_c04 a || (if hand_built then false else negb (c04_succ && c04_pred));
          a_c05 := a_c05 a || negb (c05_step_ok cf seq prev next);
